@@ -309,12 +309,195 @@ def apply_single(tree):
         f"  {hdr} ({val(fin[0])}, {val(fin[1])}).\n")
 
 
+def _is_compile_of(e, var):
+    return isinstance(e, ast.Call) and ast.unparse(e.func) == 're.compile' \
+        and len(e.args) == 1 and not e.keywords \
+        and ast.unparse(e.args[0]) == var
+
+
+def _patterns_branch(stmts):
+    """ classify a branch of SearchDef.__init__'s pattern handling:
+    'single'  self.patterns = [re.compile(pattern)]
+    'many'    self.patterns = [re.compile(p) for p in pattern]      or
+              self.patterns = []; for p in pattern:
+                                      self.patterns.append(re.compile(p))
+    (order of `pattern` preserved in both forms) """
+    stmts = _strip_logs(stmts)
+    if len(stmts) == 1 and isinstance(stmts[0], ast.Assign) and \
+            ast.unparse(stmts[0].targets[0]) == 'self.patterns':
+        v = stmts[0].value
+        if isinstance(v, ast.List) and len(v.elts) == 1 and \
+                _is_compile_of(v.elts[0], 'pattern'):
+            return 'single'
+        if isinstance(v, ast.ListComp) and len(v.generators) == 1:
+            g = v.generators[0]
+            if not g.ifs and not g.is_async and \
+                    ast.unparse(g.iter) == 'pattern' and \
+                    isinstance(g.target, ast.Name) and \
+                    _is_compile_of(v.elt, g.target.id):
+                return 'many'
+    if len(stmts) == 2 and isinstance(stmts[0], ast.Assign) and \
+            ast.unparse(stmts[0]) == 'self.patterns = []' and \
+            isinstance(stmts[1], ast.For) and not stmts[1].orelse and \
+            ast.unparse(stmts[1].iter) == 'pattern' and \
+            isinstance(stmts[1].target, ast.Name):
+        body = _strip_logs(stmts[1].body)
+        if len(body) == 1 and isinstance(body[0], ast.Expr) and \
+                isinstance(body[0].value, ast.Call) and \
+                ast.unparse(body[0].value.func) == 'self.patterns.append' \
+                and len(body[0].value.args) == 1 and \
+                _is_compile_of(body[0].value.args[0], stmts[1].target.id):
+            return 'many'
+    raise Untranslatable("SearchDef.__init__: unrecognised way of building "
+                         "self.patterns: " +
+                         '; '.join(ast.unparse(n) for n in stmts)[:200])
+
+
+def searchdef_init(tree):
+    fn = find_def(tree, 'SearchDef.__init__')
+    body = _body(fn)
+    ifs = [n for n in body if isinstance(n, ast.If)
+           and 'isinstance(pattern, list)' in ast.unparse(n.test)]
+    pif = _one(ifs, "`if ... isinstance(pattern, list)` in "
+               "SearchDef.__init__")
+    cond = Tr(subst={'isinstance(pattern, list)':
+                     ('is_list', 'bool', ['is_list'])},
+              bools={'is_list'}).cond(pif.test)
+    kinds = {'single': '[compile single]', 'many': 'map compile many'}
+    a, b = _patterns_branch(pif.body), _patterns_branch(pif.orelse)
+    if {a, b} != {'single', 'many'}:
+        raise Untranslatable("SearchDef.__init__: the two branches must "
+                             "handle a single pattern and a list")
+    # hint: stored as given, compiled when truthy
+    hint_ifs = [n for n in body if isinstance(n, ast.If)
+                and ast.unparse(n.test) == 'hint']
+    hif = _one(hint_ifs, "`if hint:` in SearchDef.__init__")
+    hb = _strip_logs(hif.body)
+    if hif.orelse or len(hb) != 1 or \
+            ast.unparse(hb[0]) != 'self.hint = re.compile(hint)':
+        raise Untranslatable("SearchDef.__init__: expected `if hint: "
+                             "self.hint = re.compile(hint)`")
+    plain = [n for n in body if isinstance(n, ast.Assign)
+             and ast.unparse(n.targets[0]) == 'self.hint']
+    if [ast.unparse(n.value) for n in plain] != ['hint'] or \
+            body.index(plain[0]) > body.index(hif):
+        raise Untranslatable("SearchDef.__init__: expected `self.hint = "
+                             "hint` before the compilation")
+    hcond = Tr(names={'hint': 'hint_truthy'},
+               bools={'hint_truthy'}).cond(hif.test)
+    return (
+        f"(* {ast.unparse(pif.test)}: ... *)\n"
+        "Definition searchdef_patterns {P C : Type} (compile : P -> C) "
+        "(is_list : bool)\n    (single : P) (many : list P) : list C :=\n"
+        f"  if {cond} then {kinds[a]} else {kinds[b]}.\n"
+        "(* self.hint = hint; if hint: self.hint = re.compile(hint) *)\n"
+        "Definition searchdef_hint_compiled (hint_truthy : bool) : bool := "
+        f"{hcond}.\n")
+
+
+def searchdefbase(tree):
+    fn = find_def(tree, 'SearchDefBase.__init__')
+    assigns = [n for n in _body(fn) if isinstance(n, ast.Assign)
+               and ast.unparse(n.targets[0]) == 'self._constraints']
+    a = _one(assigns, "assignment to self._constraints")
+    if ast.unparse(a.value) not in ('constraints or {}', 'constraints or []',
+                                    'constraints or ()'):
+        raise Untranslatable("SearchDefBase.__init__: expected "
+                             "`self._constraints = constraints or {}`")
+    prop = find_def(tree, 'SearchDefBase.constraints')
+    pb = _body(prop)
+    if len(pb) != 1 or not isinstance(pb[0], ast.Return) or \
+            not isinstance(pb[0].value, ast.DictComp):
+        raise Untranslatable("SearchDefBase.constraints: expected one "
+                             "`return {...: ... for ...}`")
+    dc = pb[0].value
+    if len(dc.generators) != 1:
+        raise Untranslatable("SearchDefBase.constraints: one generator")
+    g = dc.generators[0]
+    if g.ifs or g.is_async or not isinstance(g.target, ast.Name) or \
+            ast.unparse(g.iter) != 'self._constraints' or \
+            ast.unparse(dc.key) != f"{g.target.id}.id" or \
+            ast.unparse(dc.value) != g.target.id:
+        raise Untranslatable("SearchDefBase.constraints: expected "
+                             "{c.id: c for c in self._constraints}")
+    idf = find_def(tree, 'SearchDefBase.id')
+    decos = [ast.unparse(d) for d in idf.decorator_list]
+    if decos != ['cached_property']:
+        raise Untranslatable("SearchDefBase.id must be a cached_property "
+                             "(one identity per object)")
+    return (
+        f"(* {ast.unparse(pb[0])} - the items inserted, in order *)\n"
+        "Definition searchdef_constraints_items {C : Type} (cid : C -> Z) "
+        "(given : list C)\n    : list (Z * C) := "
+        "map (fun c => (cid c, c)) given.\n"
+        "(* SearchDefBase.id is a cached_property: computed once per "
+        "object *)\n"
+        "Definition searchdef_id_cached : bool := true.\n")
+
+
+def task_init(tree):
+    fn = find_def(tree, 'SearchTask.__init__')
+    body = _body(fn)
+    bufs = [n for n in body if isinstance(n, ast.Assign)
+            and ast.unparse(n.targets[0]) == 'self.results_buffer']
+    b = _one(bufs, "assignment to self.results_buffer")
+    if not isinstance(b.value, ast.List):
+        raise Untranslatable("SearchTask.__init__: results_buffer must "
+                             "start as a list literal")
+    ifs = [n for n in body if isinstance(n, ast.If)]
+    dif = _one(ifs, "`if` in SearchTask.__init__")
+    db = _strip_logs(dif.body)
+    if dif.orelse or len(db) != 1 or ast.unparse(db[0]) != \
+            "self.decode_kwargs['errors'] = decode_errors":
+        raise Untranslatable("SearchTask.__init__: expected `if ..: "
+                             "self.decode_kwargs['errors'] = decode_errors`")
+    kws = [n for n in body if isinstance(n, ast.Assign)
+           and ast.unparse(n.targets[0]) == 'self.decode_kwargs']
+    if [ast.unparse(n.value) for n in kws] != ['{}']:
+        raise Untranslatable("SearchTask.__init__: decode_kwargs must "
+                             "start empty")
+    cond = Tr(names={'decode_errors': 'decode_errors_truthy'},
+              bools={'decode_errors_truthy'}).cond(dif.test)
+    rm = find_def(tree, 'SearchTaskResultsManager.__init__')
+    rifs = [n for n in _body(rm) if isinstance(n, ast.If)]
+    rif = _one(rifs, "`if` in SearchTaskResultsManager.__init__")
+    rb = _strip_logs(rif.body)
+    if rif.orelse or len(rb) != 1 or not isinstance(rb[0], ast.Raise):
+        raise Untranslatable("SearchTaskResultsManager.__init__: expected "
+                             "`if ..: raise ..`")
+    rcond = Tr(subst={'results_queue is not None':
+                      ('queue_given', 'bool', ['queue_given']),
+                      'results_collection is not None':
+                      ('collection_given', 'bool', ['collection_given'])},
+               bools={'queue_given', 'collection_given'}).cond(rif.test)
+    for prop, attr in (('results_store', '_results_store'),
+                       ('results_queue', '_results_queue'),
+                       ('results_collection', '_results_collection')):
+        pf = find_def(tree, 'SearchTaskResultsManager.' + prop)
+        pb = _body(pf)
+        if len(pb) != 1 or ast.unparse(pb[0]) != f"return self.{attr}":
+            raise Untranslatable(f"SearchTaskResultsManager.{prop} must "
+                                 f"return self.{attr}")
+    return (
+        f"(* {ast.unparse(b)} *)\n"
+        f"Definition task_initial_buffer_len : Z := {len(b.value.elts)}.\n"
+        f"(* if {ast.unparse(dif.test)}: {ast.unparse(db[0])} *)\n"
+        "Definition task_passes_decode_errors (decode_errors_truthy : bool) "
+        f": bool := {cond}.\n"
+        f"(* if {ast.unparse(rif.test)}: raise *)\n"
+        "Definition resultsmanager_rejects (queue_given collection_given : "
+        f"bool) : bool :=\n  {rcond}.\n")
+
+
 ITEMS = [
     ('simple_flush_test', 'searchkit/task.py', simple_search),
     ('flush_expressions', 'searchkit/task.py', flush),
     ('enumerate_start', 'searchkit/task.py', run_search),
     ('store_result_ranges', 'searchkit/result.py', store_result),
     ('apply_single_updates', 'searchkit/search.py', apply_single),
+    ('searchdef_init', 'searchkit/searchdef.py', searchdef_init),
+    ('searchdefbase', 'searchkit/searchdef.py', searchdefbase),
+    ('task_init', 'searchkit/task.py', task_init),
 ]
 
 
@@ -330,6 +513,6 @@ def generate(repo):
             failed.append((f"task:{name}", f"{type(exc).__name__}: {exc}"))
     text = ("(* GENERATED from the repository working tree by "
             "translator/plugins/task.py - do not edit *)\n"
-            "From Coq Require Import ZArith Bool.\n"
+            "From Coq Require Import ZArith Bool List.\nImport ListNotations.\n"
             "Open Scope Z_scope.\n\n" + "\n".join(parts))
     return text, info, failed
